@@ -5,3 +5,5 @@ package commitlog
 func verifCrashPoint(name string) {}
 
 func verifGate(name string) {}
+
+func verifIndexBytes(b int64) int64 { return b }
